@@ -14,7 +14,8 @@ import time
 REPO = os.environ.get("VERIF_REPO", "/repo")
 ROOT = os.environ.get("VERIF_BUILD_ROOT", "/var/tmp/bioscrape-verif")
 PY = "/venv/bin/python"
-KEEP = int(os.environ.get("VERIF_BUILD_KEEP", "3"))
+KEEP = int(os.environ.get("VERIF_BUILD_KEEP", "12"))
+MIN_AGE_S = float(os.environ.get("VERIF_BUILD_MIN_AGE_S", str(8 * 3600)))   # never prune a build that may still be in use
 
 
 def _source_files(repo):
@@ -49,8 +50,10 @@ def _prune(keep_dir):
             if os.path.isdir(p) and p != keep_dir:
                 entries.append((os.path.getmtime(p), p))
         entries.sort(reverse=True)
-        for _, p in entries[max(0, KEEP - 1):]:
-            shutil.rmtree(p, ignore_errors=True)
+        now = time.time()
+        for mt, p in entries[max(0, KEEP - 1):]:
+            if now - mt > MIN_AGE_S:
+                shutil.rmtree(p, ignore_errors=True)
     except OSError:
         pass
 
@@ -118,6 +121,12 @@ def activate(repo=REPO):
     if dest in sys.path:
         sys.path.remove(dest)
     sys.path.insert(0, dest)
+    # import everything now: forked workers inherit the loaded modules and no longer depend on the files of the build
+    import importlib
+    for name in ("bioscrape", "bioscrape.random", "bioscrape.types", "bioscrape.simulator", "bioscrape.inference",
+                 "bioscrape.lineage", "bioscrape.sbmlutil", "bioscrape.analysis", "bioscrape.pid_interfaces",
+                 "bioscrape.inference_setup"):
+        importlib.import_module(name)
     return dest
 
 
